@@ -154,4 +154,30 @@ theorem cmpHalfDiff_weak : WeakCmp cmpHalfDiff := by
     refine ⟨?_, ?_, ?_⟩ <;> intros <;> omega
   exact h.proj (fun a : Int => a / 2)
 
+/-! ### type matrix: float keys, struct keys, case-insensitive strings -/
+
+theorem cmpF64_weak : WeakCmp cmpF64 := cmpInt_weak.proj (fun a : Int × Bool => a.1)
+
+/-- `-0` and `0` are different keys that compare equal: `float64` keys need the weak-order theorems. -/
+theorem cmpF64_not_total : ¬ TotalCmp cmpF64 := by
+  intro h
+  have := (h.eq_iff (0, true) (0, false)).mp (by decide)
+  cases this
+
+theorem cmpPairFirst_weak : WeakCmp cmpPairFirst := cmpInt_weak.proj (fun a : Int × Int => a.1)
+
+theorem cmpPairLex_total : TotalCmp cmpPairLex := by
+  refine ⟨?_, ?_, ?_⟩
+  · rintro ⟨a1, a2⟩ ⟨b1, b2⟩
+    simp only [cmpPairLex, cmpInt, Prod.mk.injEq]
+    (repeat' split) <;> constructor <;> intro h <;> omega
+  · rintro ⟨a1, a2⟩ ⟨b1, b2⟩
+    simp only [cmpPairLex, cmpInt]
+    (repeat' split) <;> omega
+  · rintro ⟨a1, a2⟩ ⟨b1, b2⟩ ⟨c1, c2⟩
+    simp only [cmpPairLex, cmpInt]
+    (repeat' split) <;> intro h1 h2 <;> omega
+
+theorem cmpFold_weak : WeakCmp cmpFold := cmpBytes_total.toWeak.proj (fun a : List Nat => a.map lowerByte)
+
 end Golib.C02
